@@ -565,13 +565,13 @@ def _import_family(role, sym, roles):
         return "rename-destination-lost"
     if "R-dst" in parts and any("R-src" in v and v & {"M", "R-dst"} for v in roles.values()):
         # the destination of a rename whose source path (or another one of the commit) is taken again: a chain or swap of renames
-        return "rename-source-path-reused-in-same-commit:%s" % sym
+        return "rename-source-path-reused-in-same-commit"
     if "R-src" in parts and parts & {"M", "R-dst"}:
-        return "rename-source-path-reused-in-same-commit:%s" % sym
+        return "rename-source-path-reused-in-same-commit"
     if any(x.startswith("under-R-") for x in parts):
-        return "path-below-directory-renamed-in-same-commit:%s" % sym
+        return "path-below-directory-renamed-in-same-commit"
     if any(x.startswith("parent-of-") for x in parts):
-        return "directory-whose-content-is-renamed-in-same-commit:%s" % sym
+        return "directory-whose-content-is-renamed-in-same-commit"
     return "%s:%s" % (role, sym)
 
 
